@@ -303,6 +303,14 @@ pub struct TourReplay {
 /// share kind and location. All location/kind-consistent assignments are enumerated (bounded) and the
 /// interpretation with the fewest issues is reported: an alarm is raised only when no interpretation fits.
 pub fn check_tour(m: &PModel, ti: usize, t: &STour, out: &mut Vec<Issue>, probes: &mut Probes) -> Option<TourReplay> {
+    // stops are reported in visiting order: nothing is reached before the stop in front of it is left (needs no model of the
+    // travel time, so it is judged on every tour, also on those whose times are not replayed)
+    for (si, w) in t.stops.windows(2).enumerate() {
+        if w[1].arrival < w[0].departure || w[0].departure < w[0].arrival {
+            issue(out, "C03", "stop-order", format!("tour {ti}: stop {} is reported with arrival {} / departure {}, the stop behind it is reached at {}", si, w[0].arrival, w[0].departure, w[1].arrival));
+            break;
+        }
+    }
     let combos = enumerate_assignments(m, t);
     let mut best: Option<(Vec<Issue>, Probes, Option<TourReplay>)> = None;
     for assign in combos.iter() {
